@@ -1,6 +1,6 @@
 #!/bin/bash
 # usage: sweep.sh <from-seed> <to-seed> [checks...]; prints one line per (check, seed) plus unattributed findings
-cd /verif
+cd "$(dirname "${BASH_SOURCE[0]}")/.."
 from=$1; to=$2; shift 2
 checks=${@:-C01 C02 C03 C04 C05 C06 C07 C08 C09 C10 C11 C12 C13 C14 C15 C16}
 for s in $(seq $from $to); do for c in $checks; do
